@@ -839,6 +839,8 @@ def build_bomb(case):
     }
     return core.SparseFile(fsize, chunks, salt=case.get("salt", 0))
 
-from harness.readers import under_O, under_debug  # noqa: E402
+from harness.readers import under_O, under_debug, under_bufsize  # noqa: E402
 SUITES["vmdk_pyO"] = under_O(SUITES["vmdk"])
 SUITES["vmdk_dbg"] = under_debug(SUITES["vmdk"])
+SUITES["vmdk_buf12288"] = under_bufsize(SUITES["vmdk"], 12288)
+SUITES["vmdk_buf1536"] = under_bufsize(SUITES["vmdk"], 1536, n=4)
